@@ -36,6 +36,21 @@ READER_SKIPS = {("scope", "definedType"), ("function", "overriddenFunction"), ("
                 ("type", "classScope"), ("derivedFrom", "type"), ("derivedFrom", "nameTok")}
 
 
+def sh_retry(cmd, tries=8, **kw):
+    """vlib.sh on the shared cppcheck binary; waits while another check is relinking it / recopying cfg/."""
+    import time
+    rc, out = 126, ""
+    for _ in range(tries):
+        try:
+            rc, out, _dt = vlib.sh(cmd, **kw)
+        except OSError as e:   # ETXTBSY / EACCES while the linker writes the file
+            rc, out = 126, "Permission denied: %s" % e
+        if not (rc in (126, 127) or "installation is broken" in out or "Permission denied" in out or "Text file busy" in out):
+            return rc, out
+        time.sleep(10)
+    raise vlib.BuildError("cppcheck binary unusable (concurrent rebuild?): rc=%s %s" % (rc, out[-300:]))
+
+
 class Doc:
     """One <dump cfg=...> as the model sees it."""
 
